@@ -28,11 +28,13 @@ def run(tier, seed, scale, verif):
     shapes = set()
     samples = []
     inconclusive = []
+    pipelined = 0
     nruns = int((8 if tier == "quick" else 60) * scale) or 1
     for run_i in range(nruns):
         wd = os.path.join(base, "r%d" % run_i)
         sent = []  # RecordKind JSON values, in order
         nsessions = rng.randint(2, 5)
+        ordered = True
         try:
             for sess in range(nsessions):
                 s = Server(wd)
@@ -51,7 +53,23 @@ def run(tier, seed, scale, verif):
                 rng.shuffle(cmds)
                 # some sessions apply nothing at all (also the very first one: the log then exists but is empty)
                 quiet = rng.random() < 0.3
-                for args in cmds[: 0 if quiet else rng.randint(1, 5)]:
+                busy = (not quiet) and cmds and rng.random() < 0.35
+                if busy:
+                    # a client that applies many fixes at once ("fix all") and does not wait for each answer: the requests
+                    # are written in one go; every one that is answered must be in the log exactly once (order is the
+                    # server's business here, the comparison below is by multiset from now on)
+                    n = rng.choice([40, 100, 250, 400])
+                    rids = []
+                    for i in range(n):
+                        args = cmds[i % len(cmds)]
+                        rids.append((s.request("workspace/executeCommand", {"command": "HarperRecordLint", "arguments": args}), args))
+                    s.pump(lambda: all(r in s.responses for r, _ in rids), 120)
+                    for r, args in rids:
+                        if "error" not in s.responses[r]:
+                            sent.append(json.loads(args[0]))
+                    ordered = False
+                    pipelined += n
+                for args in cmds[: 0 if (quiet or busy) else rng.randint(1, 5)]:
                     s.command("HarperRecordLint", args)
                     sent.append(json.loads(args[0]))
                 stats_path = s.stats_path
@@ -76,7 +94,8 @@ def run(tier, seed, scale, verif):
                     findings.append({"prop": "C19", "sig": "ls.unparsable-line", "count": 1, "wlen": len(sent), "witness": wit, "detail": "a line of the statistics file is not a JSON document: %s" % e})
                     continue
                 kinds = [r.get("kind") for r in recs]
-                if kinds != sent:
+                same = kinds == sent if ordered else sorted(json.dumps(k, sort_keys=True) for k in kinds) == sorted(json.dumps(k, sort_keys=True) for k in sent)
+                if not same:
                     sig = "ls.append-count" if len(kinds) != len(sent) else "ls.append-content"
                     findings.append({"prop": "C19", "sig": sig, "count": 1, "wlen": len(sent), "witness": wit,
                                      "detail": "after %d sessions the file holds %d records, %d were recorded; first difference at %r" % (
@@ -96,5 +115,5 @@ def run(tier, seed, scale, verif):
         else:
             merged[f["sig"]]["count"] += 1
     return {"evaluations": evaluations, "distinct_nontrivial": len(shapes), "samples": samples, "findings": list(merged.values()),
-            "notes": ["harper-ls append sessions: %d runs, %d sessions checked" % (nruns, evaluations)], "inconclusive": inconclusive if len(inconclusive) > nruns // 2 else [],
-            "counters": {"ls_sessions": evaluations}, "wall_s": time.time() - t0}
+            "notes": ["harper-ls append sessions: %d runs, %d sessions checked, %d record commands sent without waiting for the answers" % (nruns, evaluations, pipelined)], "inconclusive": inconclusive if len(inconclusive) > nruns // 2 else [],
+            "counters": {"ls_sessions": evaluations, "ls_pipelined_record_commands": pipelined}, "wall_s": time.time() - t0}
